@@ -633,6 +633,7 @@ class Group:
         self.line = sx(recipe)
         self.diffs = []          # (what, case line, impl, model)
         self.reported = set()
+        self.cap = 2
         self.violated = False
 
     def replay(self, **kw):
@@ -647,7 +648,7 @@ class Group:
         if self.classify(what, kw):
             return
         # one input usually violates several clauses at once: report two of them, count the rest
-        if cat in self.reported or len(self.reported) >= 2:
+        if cat in self.reported or len(self.reported) >= self.cap:
             return
         self.reported.add(cat)
         self.ctx.violation('%s  [recipe %s]' % (what, self.line[:300]), self.replay(**kw))
@@ -998,9 +999,11 @@ def same_waveform(B, g, a, b, what, chans=None, mirror=None, grid=None, **kw):
     judge(B, g, 'judge-same', [vals_sx(vb), vals_sx(va)], what, **kw)
 
 
-def check_group(B, ctx, recipe, subseed, label, light=False, derive=True):
+def check_group(B, ctx, recipe, subseed, label, light=False, derive=True, shared=None):
     rng = random.Random(subseed)
     g = Group(ctx, recipe, subseed, label)
+    if shared is not None:          # several groups of one corpus witness: one report in total
+        g.reported, g.cap = shared, 1
     grid = make_grid(recipe, rng)
     results = []
     k = recipe[0]
@@ -1467,10 +1470,15 @@ def replay(ctx: core.Ctx, rec: dict, from_corpus: bool = False) -> bool:
     if rec.get('kind') == 'group':
         recipe = recipe_of_line(rec['recipe'])
         B = Batch()
-        g = check_group(B, ctx, recipe, rec.get('subseed', 0), rec.get('label', 'replay'),
-                        light=bool(rec.get('light', False)))
+        # corpus witnesses are replayed with several call histories / equality partners, so that they keep their
+        # power when the history generator changes
+        subseeds = [rec.get('subseed', 0) + i for i in range(8 if from_corpus else 1)]
+        shared = set() if from_corpus else None
+        groups = [check_group(B, ctx, recipe, sub, rec.get('label', 'replay'), light=bool(rec.get('light', False)),
+                              shared=shared)
+                  for sub in subseeds]
         B.run()
-        drifted = finish_groups(ctx, [g])
+        drifted = finish_groups(ctx, groups)
         if drifted and not from_corpus:
             ctx.finish()
     else:
